@@ -167,7 +167,8 @@ def check(tier):
         rep.add("evaluations")
         name, text, rel, nkeys, evalf = PROGRAMS[res["pi"]]
         db = DBS[res["di"]]
-        rp = {"kind": "lattice", "program": HEADER + text, "facts": {"a": ["%d" % t for t in db["a"]], "e": ["%d\t%d" % t for t in db["e"]]}, "mode": res["mode"]}
+        rp = {"kind": "lattice", "program": HEADER + text, "facts": {"a": ["%d" % t for t in db["a"]], "e": ["%d\t%d" % t for t in db["e"]]}, "mode": res["mode"],
+              "relation": rel, "nkeys": nkeys, "expected": sorted([list(k) + [v] for k, v in evalf(db).items()])}
         if res["rc"] != 0:
             rep.violation("%s failed (rc=%s): %s" % (name, res["rc"], res["err"][-200:]), rp)
             continue
@@ -197,4 +198,20 @@ def check(tier):
 
 
 def replay(obj):
-    return True, "re-run the stored program with -L<verif>/build/functors -lfunctors (see check source)"
+    wd = fresh_dir(PID + "-replay")
+    fdir = build_functors()
+    os.makedirs(os.path.join(wd, "f"))
+    os.makedirs(os.path.join(wd, "o"))
+    for r, lines in obj["facts"].items():
+        with open(os.path.join(wd, "f", r + ".facts"), "w") as f:
+            f.write("".join(l + "\n" for l in lines))
+    with open(os.path.join(wd, "p.dl"), "w") as f:
+        f.write(obj["program"])
+    env = dict(os.environ)
+    env["LD_LIBRARY_PATH"] = fdir + ":" + env.get("LD_LIBRARY_PATH", "")
+    rc, so, se = sh([SOUFFLE, "--no-preprocessor", "-w", "-L" + fdir, "-lfunctors", "-F", os.path.join(wd, "f"), "-D", os.path.join(wd, "o"),
+                     "-j", "2" if obj.get("mode") == "j2" else "1", os.path.join(wd, "p.dl")], timeout=120, env=env)
+    if rc != 0:
+        return True, "rc=%s %s" % (rc, se[-300:])
+    rows = sorted([[int(x) for x in l.split("\t")[:obj["nkeys"]]] + [l.split("\t")[obj["nkeys"]].lstrip("$")] for l in open(os.path.join(wd, "o", obj["relation"] + ".csv")).read().splitlines()])
+    return rows != obj["expected"], "got %s expected %s" % (rows, obj["expected"])
